@@ -451,13 +451,14 @@ void h_strtoul(void) { const int base = CC_BASE; VF_INPUT_BOOL(ll); CSTR_IN(CC_D
   if (ll) { STRTO_POST(c_strtoull, unsigned long long); } else { STRTO_POST(c_strtoul, unsigned long); }
   VF_REACH(); }
 
-/* base 0 (auto-detection: 0x -> 16, 0 -> 8, else 10) next to base 10 on short strings */
-/*@GROUP name=strto_base0 props=C10,C02 kind=B bound=strlen<=4,base_in_{0,10} unwind=8 solver=kissat@*/
-void h_strto_base0(void) { VF_INPUT_BOOL(auto_base); const int base = auto_base ? 0 : 10; VF_INPUT(u8, fn); CSTR_IN(4); const _Bool uns = fn >= 2;
+/* base 0 (auto-detection: 0x -> 16, 0 -> 8, else 10) next to bases 10 and 16 on short strings: all four functions */
+/*@GROUP name=strto_short props=C10,C02 kind=B bound=strlen<=4,base_in_{0,10,16} unwind=8 solver=kissat@*/
+void h_strto_short(void) { VF_INPUT(u8, bsel); const int base = bsel == 0 ? 0 : (bsel == 1 ? 10 : 16); VF_INPUT(u8, fn); CSTR_IN(4); const _Bool uns = fn >= 2;
   VF_INPUT_BOOL(want_end);
   const ref_t r = uns ? s_parse_w(s, n, base, F_WS | F_MINUS | F_PLUS | F_PREFIX, LO_u64, HI_u64, 1, 64, 4) : s_parse_w(s, n, base, F_WS | F_MINUS | F_PLUS | F_PREFIX, LO_i64, HI_i64, 0, 64, 4);
   VF_KNOWN(C10_strto_base0_division_by_zero, base == 0);
   VF_KNOWN(C10_parse_plus_sign_rejected, r.plus);
+  VF_KNOWN(C10_parse_hex_prefix_ignored, r.prefix);
   VF_KNOWN(C10_parse_unsigned_minus_rejected, uns && r.minus);
   if (fn == 0) { STRTO_POST(c_strtol, long); } else if (fn == 1) { STRTO_POST(c_strtoll, long long); }
   else if (fn == 2) { STRTO_POST(c_strtoul, unsigned long); } else { STRTO_POST(c_strtoull, unsigned long long); }
@@ -493,10 +494,4 @@ void h_stoul(void) { const int base = CC_BASE; VF_INPUT_BOOL(ll); RANGE_IN(CC_D6
   VF_KNOWN(C10_parse_hex_prefix_ignored, r.prefix);
   VF_KNOWN(C10_parse_unsigned_minus_rejected, r.minus);
   if (ll) STO_POST(s_stoull, unsigned long long) else STO_POST(s_stoul, unsigned long)
-  VF_REACH(); }
-
-/*@GROUP name=x_strtol props=C10,C02 kind=K unwind=29 tier=thorough timeout=1200 split=CC_BI:1:1 solver=kissat@*/
-void h_x_strtol(void) { const int base = CC_BASE; CSTR_IN(CC_D64 + 3); STRTO_PRE(i64, CC_D64 + 3, 0);
-  __CPROVER_assume(!r.plus && !r.prefix && r.cls != 2);
-  STRTO_POST(c_strtol, long);
   VF_REACH(); }
